@@ -180,6 +180,10 @@ func Assert(c bool, label string) {
 // Cover is a reachability witness: some explored path must make c true.
 func Cover(label string, c bool) {}
 
+// PermuteMaps brackets the section in which the executor explores the iteration orders of small
+// Go maps (flag -permute-maps N); outside it maps iterate in insertion order. No native effect.
+func PermuteMaps(on bool) {}
+
 // Native reports whether the harness runs as ordinary compiled code (true) or under the executor (false).
 func Native() bool { return true }
 
